@@ -28,6 +28,9 @@ def cases(tier, seed):
         nf = len(d["fields"])
         if tier == "quick" and nf == 3 and d["payload"] == "coded" and c.get("devlevel") is not None:
             continue
+        special = min(min(h - l for l, h in zip(lo, hi)) for lv in d["levels"] for lo, hi in lv) == 0 or d["domain"][0] > 1000
+        if tier == "quick" and special and c.get("devlevel") is not None and nf != 2:
+            continue
         for payload in (["hostile", "hostile_nonan"] if d["payload"] == "hostile" else ["coded"]):
             d2 = dict(d)
             d2["payload"] = payload
